@@ -22,7 +22,7 @@ ASSUMPTIONS = [
     "RouterOS: a block is a section (its row is one path word), leaves live under sections (a leaf outside every section does not exist in RouterOS exports and is outside the domain)",
 ]
 EXHAUSTIVE = {"quick": True, "thorough": True}
-FLOORS = {"quick": {"roundtrips": 20000, "vendors": 14, "fixpoints": 20000, "custom_indent_roundtrips": 5000, "device_texts": 1500, "annotations_written": 1500, "nokia_nested_configure_rows": 150, "iosxr_block_end_lookalike_rows": 300, "cli_vocabulary_trees": 4000, "rendered_texts_compared_with_rows": 15000},
+FLOORS = {"quick": {"roundtrips": 20000, "vendors": 14, "fixpoints": 20000, "custom_indent_roundtrips": 5000, "device_texts": 1500, "annotations_written": 1500, "nokia_nested_configure_rows": 150, "iosxr_block_end_lookalike_rows": 300, "cli_vocabulary_trees": 4000, "rendered_texts_compared_with_rows": 15000, "trees_through_a_formatter_that_served_other_texts": 1500, "texts_read_by_one_vendor_after_another": 2000},
           "thorough": {"roundtrips": 400000, "vendors": 14, "fixpoints": 400000, "custom_indent_roundtrips": 80000, "device_texts": 25000, "annotations_written": 25000, "nokia_nested_configure_rows": 2500, "iosxr_block_end_lookalike_rows": 5000, "cli_vocabulary_trees": 60000}}
 WORDS = ["a", "b1", "Eth-Trunk1", "10.0.0.1/24", "x.y", "k=v", "q_1", "peer", "description", "1", "ge-0/0/1", "descr:foo", "100:1"]
 BRACE = {"juniper", "ribbon", "nokia"}
@@ -38,7 +38,7 @@ def plan(tier, seed):
     from vf import env
     env.setup()
     vs = list(env.vendors().vendors)
-    return [{"mode": "vendor", "tier": tier, "seed": seed, "vendor": v} for v in vs]
+    return [{"mode": "vendor", "tier": tier, "seed": seed, "vendor": v} for v in vs] + [{"mode": "shared", "tier": tier, "seed": seed}]
 
 
 def shapes(n):
@@ -379,7 +379,84 @@ def run_vendor(spec, acc):
             roundtrip(vname, t, "cisco-address-family", acc)
 
 
+def run_shared(spec, acc, only=None):
+    """one process, as `annet` is: (a) the formatter object of a vendor serves many texts and trees in turn - flat ones, nested ones, in any order;
+    (b) one and the same text is read by several vendors one after another (hardware guessing, mixed fleets)"""
+    from annet.annlib.tabparser import parse_to_tree
+    from vf import env
+    vs = [v for v in env.vendors().vendors]
+    ind = [v for v in vs if v not in BRACE and v != "routeros"]
+    kept = {v: env.vendors()[v].make_formatter() for v in vs}
+    rng = random.Random("C04/shared/%s" % spec["seed"])
+    n = 600 if spec["tier"] == "quick" else 10000
+    cases = []
+    if only is not None:
+        cases = [only]
+    for j in range(0 if only is not None else n):
+        t = random_tree(rng, maxd=4) if rng.random() < 0.6 else (vocab_tree(rng, "cisco") or random_tree(rng, maxd=3))  # (no address-family rows: the listed cisco finding)
+        flat = [[r, []] for r, _ in random_tree(rng, maxd=1)]
+        bgp = rng.random() < 0.5
+        order = list(ind)
+        rng.shuffle(order)
+        bgp = bgp and all(r != "router bgp 65000" for r, _ in t)
+        cases.append({"tree": t, "flat": flat, "bgp": bgp, "order": order, "reuse": rng.sample([v for v in vs if v != "routeros"], 4)})  # (RouterOS trees have their own shape)
+    for c in cases:
+        t, flat = c["tree"], c["flat"]
+        # (a) a kept formatter: reads a flat text, then renders and reads a nested tree
+        for v in c["reuse"]:
+            if not in_domain(v, t) or not in_domain(v, flat):
+                continue
+            fresh = env.vendors()[v].make_formatter()
+            w = {"shared": True, "case": c, "vendor": v, "class": "kept-formatter"}
+            try:
+                parse_to_tree(fresh.join(unplain(flat)), kept[v].split)
+                s = kept[v].join(unplain(t))
+                back = plain(parse_to_tree(s, kept[v].split))
+                s_fresh = fresh.join(unplain(t))
+            except Exception as e:
+                acc.violation("C04/%s/kept-formatter-exception-%s" % (v, type(e).__name__), "a formatter object that served other texts before raises on a tree of the vendor's domain", dict(w, error=repr(e)[:200]))
+                continue
+            acc.count("trees_through_a_formatter_that_served_other_texts")
+            acc.case(["kept", v, t, flat], nontrivial=tdepth(unplain(t)) >= 2)
+            if s != s_fresh or back != t:
+                acc.violation("C04/%s/formatter-remembers-earlier-texts" % v, "a formatter object that read another text before renders (or reads back) a tree differently from a fresh formatter",
+                              dict(w, text=s.split("\n")[:30], fresh_text=s_fresh.split("\n")[:30], parsed=back))
+        # (b) one text, several vendors
+        tb = list(t)
+        if c["bgp"]:
+            tb = tb + [["router bgp 65000", [["address-family ipv4 unicast", [["neighbor 1.1.1.1 activate", []]]], ["bgp log-neighbor-changes", []]]]]
+        texts = {}
+        for v in c["order"]:
+            if in_domain(v, tb):
+                try:
+                    texts[v] = env.vendors()[v].make_formatter().join(unplain(tb))
+                except Exception:
+                    pass
+        if not texts:
+            continue
+        T = texts[next(iter(texts))]
+        for v in c["order"]:
+            if texts.get(v) != T:
+                continue
+            fmt = env.vendors()[v].make_formatter()
+            w = {"shared": True, "case": c, "vendor": v, "class": "one-text-several-vendors", "text": T.split("\n")[:30]}
+            try:
+                got = plain(parse_to_tree(T, fmt.split))
+            except Exception as e:
+                got = "EXC %r" % (e,)
+            if v == "cisco" and c["bgp"]:
+                continue     # (the listed finding C04/cisco/address-family-row-shifts-indentation: read, not judged)
+            acc.count("texts_read_by_one_vendor_after_another")
+            if got != tb:
+                acc.violation("C04/%s/text-read-differently-after-another-vendor-read-it" % v, "a text that another vendor's reader saw before is not read as the tree it was rendered from",
+                              dict(w, parsed=got, readers_before=c["order"][:c["order"].index(v)]))
+
+
 def run_shard(spec, acc):
+    if spec["mode"] == "shared":
+        return run_shared(spec, acc)
+    if spec["mode"] == "replay" and spec["witness"].get("shared"):
+        return run_shared({"seed": 0, "tier": "quick"}, acc, only=spec["witness"]["case"])
     if spec["mode"] == "replay":
         w = spec["witness"]
         if w.get("class") == "brace-device-text":
